@@ -185,6 +185,43 @@ def unit_bytes(salt, pid, ch, i, usize):
     return hashlib.shake_128(("%s:%d:%s:%d" % (salt, pid, ch, i)).encode()).digest(usize)
 
 
+class WouldBlock(Exception):
+    """the handler asked the pipe for more than the readiness that woke it covers: on the daemon's (blocking) pipes
+    that read does not return until the worker writes again - the event loop stands still"""
+
+
+class _ReadGuard(object):
+    """stands for the `os` module inside circus.stream.redirector while a handler runs: the pipe is switched to
+    non-blocking for the call, and a read that would block is reported instead of being waited out (the handler
+    itself swallows EAGAIN, hence the exception of another family)"""
+
+    def __getattr__(self, name):
+        return getattr(os, name)
+
+    def read(self, fd, n):
+        try:
+            return os.read(fd, n)
+        except BlockingIOError:
+            raise WouldBlock(fd)
+
+
+def guarded_call(handler, fd, events):
+    import fcntl
+    import circus.stream.redirector as rmod
+    fl = fcntl.fcntl(fd, fcntl.F_GETFL)
+    fcntl.fcntl(fd, fcntl.F_SETFL, fl | os.O_NONBLOCK)
+    saved = rmod.os
+    rmod.os = _ReadGuard()
+    try:
+        return handler(fd, events)
+    finally:
+        rmod.os = saved
+        try:
+            fcntl.fcntl(fd, fcntl.F_SETFL, fl)
+        except OSError:
+            pass
+
+
 class Mismatch(Exception):
     def __init__(self, kind, what):
         Exception.__init__(self, what)
@@ -359,7 +396,12 @@ class Replay(object):
                 raise Mismatch("divergence", "no handler registered for fd %d" % e["f"])
             if not self._readable(fd):
                 raise Mismatch("divergence", "fd %d is not readable" % e["f"])
-            ent[1](fd, READ)
+            try:
+                guarded_call(ent[1], fd, READ)
+            except WouldBlock:
+                raise Mismatch("violation", "C17_NoStall: the handler of fd %d (pid %d %s) went on reading after the data "
+                               "that had woken it was consumed: with the daemon's blocking pipes the event loop is "
+                               "stuck in read() until that worker writes again" % (e["f"], self.pidbase + e["pid"], e["name"]))
             if e["k"] > 0:
                 mp = e["pid"]
                 done = sum(len(x[4]) for x in self.expected if x[2] == self.pidbase + mp and x[3] == e["name"])
@@ -468,6 +510,63 @@ def strip_obs(beh, upto=None):
         e.pop("obs", None)
         out.append(e)
     return out
+
+
+def fit_cases(classes, seed, verdict):
+    """Writes whose size is an exact multiple of the read buffer (and its neighbours), each followed by silence: one
+    handler call per readiness, as the loop makes them; the handler must neither ask a pipe for more than is there
+    (C17_NoStall: with the daemon's blocking pipes that read stalls the loop) nor lose or reorder a byte."""
+    Redirector = classes[0]
+    rng = random.Random(seed * 977 + 13)
+    n = 0
+
+    class _Loop(object):
+        def add_handler(self, *a):
+            pass
+
+        def remove_handler(self, *a):
+            pass
+
+    class _P(object):
+        pid = 4242
+
+    for buf in (1024, 16, 1):
+        sizes = [buf, 2 * buf, 3 * buf, buf - 1, buf + 1, 2 * buf + 1, 5 * buf] if buf > 1 else [1, 2, 3]
+        for size in sizes:
+            if size <= 0:
+                continue
+            n += 1
+            got = []
+            red = Redirector(got.append, got.append, buffer=buf, loop=_Loop())
+            rd, wr = os.pipe()
+            try:
+                h = Redirector.Handler(red, "stdout", _P(), None)
+                payload = bytes(rng.randrange(256) for _ in range(size))
+                os.write(wr, payload)
+                calls = 0
+                case = {"kind": "c17-fit", "buffer": buf, "size": size}
+                while sum(len(d["data"]) for d in got) < size and calls < size + 5:
+                    if not select.select([rd], [], [], 0)[0]:
+                        break
+                    calls += 1
+                    try:
+                        guarded_call(h, rd, READ)
+                    except WouldBlock:
+                        verdict.violation("C17_NoStall: a worker wrote %d bytes (read buffer %d) and fell silent; the handler, "
+                                          "woken once, went on reading after the pipe was empty: with the daemon's blocking "
+                                          "pipes the event loop is stuck in read() until that worker writes again" % (size, buf),
+                                          case)
+                        return n
+                data = b"".join(d["data"] for d in got)
+                if data != payload:
+                    verdict.violation("C17_Prefix: %d bytes written (read buffer %d), %d delivered after %d wake-ups%s" % (
+                        size, buf, len(data), calls, "" if payload.startswith(data) else ", not a prefix of what was written"),
+                        case)
+                    return n
+            finally:
+                os.close(rd)
+                os.close(wr)
+    return n
 
 
 def replay_all(classes, behs, redof, seed, verdict, stats, label):
@@ -1242,6 +1341,7 @@ def run(prop, tier, seed):
             st = new_stats()
             t0 = time.time()
             replay_all(classes, behs, REDOF["sim"], seed, verdict, st, "sim")
+            st["fit_cases"] = fit_cases(classes, seed, verdict)
             st["wall_s"] = round(time.time() - t0, 2)
             st["dumped"] = dumped
             stats_all["sim"] = st
@@ -1292,7 +1392,13 @@ def run(prop, tier, seed):
                 else:
                     live = json.loads(p.stdout.strip().splitlines()[-1])
             except subprocess.TimeoutExpired:
-                verdict.machinery.append("live run exceeded %d s" % T["live_timeout"])
+                if verdict.violations:
+                    # the replay has already shown the code to violate the property (e.g. a handler that blocks in
+                    # read()): a live daemon on that code standing still is the same thing seen again, not a
+                    # failure of the machinery
+                    verdict.notes.append("live run exceeded %d s (after a violation had been established)" % T["live_timeout"])
+                else:
+                    verdict.machinery.append("live run exceeded %d s" % T["live_timeout"])
             if live is not None:
                 for v in live["violations"]:
                     verdict.violation("LIVE: " + v, {"kind": "live", "seed": seed, "generations": T["live_gens"],
